@@ -2479,6 +2479,8 @@ class VM:
         if isinstance(getter, JSFunction):
             # Use synchronous execution (like _call_callback)
             return self._call_callback(getter, [], this_val)
+        elif isinstance(getter, JSBoundMethod):
+            return getter(this_val)  # a this-using built-in: the receiver is its this
         elif callable(getter):
             return getter()
         return UNDEFINED
@@ -2488,6 +2490,8 @@ class VM:
         if isinstance(setter, JSFunction):
             # Use synchronous execution (like _call_callback)
             self._call_callback(setter, [value], this_val)
+        elif isinstance(setter, JSBoundMethod):
+            setter(this_val, value)
         elif callable(setter):
             setter(value)
 
@@ -2639,7 +2643,11 @@ class VM:
                 return self.stack.pop()
             return UNDEFINED
         elif callable(callback):
-            result = callback(*args)
+            if isinstance(callback, JSBoundMethod):
+                # a this-using built-in takes this as its first Python argument
+                result = callback(UNDEFINED if this_val is None else this_val, *args)
+            else:
+                result = callback(*args)
             return result if result is not None else UNDEFINED
         else:
             raise JSTypeError(f"{callback} is not a function")
